@@ -69,6 +69,25 @@ func hasModifier(n node) bool {
 	}
 }
 
+// hasOperator reports whether n, seen through captures and plain groups, is a negation or a group with a modifier.
+func hasOperator(n node) bool {
+	for {
+		switch t := n.(type) {
+		case *capture:
+			n = t.node
+		case *negation:
+			return true
+		case *group:
+			if t.mode != groupMatchOnce {
+				return true
+			}
+			n = t.expr
+		default:
+			return false
+		}
+	}
+}
+
 func buildEBNF(root bool, n node, seen map[node]bool, p *ebnfp, outp *[]*ebnfp) {
 	switch n := n.(type) {
 	case *disjunction:
@@ -147,7 +166,16 @@ func buildEBNF(root bool, n node, seen map[node]bool, p *ebnfp, outp *[]*ebnfp) 
 
 	case *negation:
 		p.out += "~"
+		// "~" binds tighter than a modifier and cannot be doubled: an operand with an operator of its own
+		// (eg. ~("a"?) or ~(~"a")) keeps its parentheses.
+		wrap := hasOperator(n.node)
+		if wrap {
+			p.out += "("
+		}
 		buildEBNF(false, n.node, seen, p, outp)
+		if wrap {
+			p.out += ")"
+		}
 
 	case *literal:
 		p.out += fmt.Sprintf("%q", n.s)
